@@ -203,6 +203,10 @@ PrematureInitializedRejected(mu, l, o) ==
 RepeatedInitializedRejected(mu, l, o) ==
   (mu.acc /\ mu.inited /\ l.m = MInited /\ LegacyMsg(l))
      => ("inited" \notin o.h /\ o.reply # "result" /\ StateUnchanged(mu, o))
+\* ... "without changing session state", seen from outside: whatever was rejected before, the first initialized
+\* notification after an accepted initialize is the one that takes effect (the InitializedHandler runs).
+FirstInitializedTakesEffect(mu, l, o) ==
+  (LegacySession(mu) /\ mu.acc /\ ~mu.inited /\ l.m = MInited /\ LegacyMsg(l)) => "inited" \in o.h
 \* ping is always served.
 PingAlways(mu, l, o) == (LegacySession(mu) /\ l.m = MPing /\ LegacyMsg(l)) => o.reply = "result"
 \* Requests carrying 2026-07-28 metadata are served (without a handshake) only if the metadata is
@@ -223,13 +227,14 @@ RemovedMethodsNotFound(mu, l, o, ms) ==
      /\ (~IsNotif(l.m) => (o.reply = "error" /\ o.code = CMethodNotFound))
 
 ClauseNames == {"GateBeforeInit", "DuplicateInitRejected", "PrematureInitializedRejected",
-                "RepeatedInitializedRejected", "PingAlways", "ModernServedIffMetaComplete",
+                "RepeatedInitializedRejected", "FirstInitializedTakesEffect", "PingAlways", "ModernServedIffMetaComplete",
                 "RemovedMethodsNotFound"}
 ClauseHolds(c, mu, l, o, ms) ==
   CASE c = "GateBeforeInit" -> GateBeforeInit(mu, l, o)
     [] c = "DuplicateInitRejected" -> DuplicateInitRejected(mu, l, o)
     [] c = "PrematureInitializedRejected" -> PrematureInitializedRejected(mu, l, o)
     [] c = "RepeatedInitializedRejected" -> RepeatedInitializedRejected(mu, l, o)
+    [] c = "FirstInitializedTakesEffect" -> FirstInitializedTakesEffect(mu, l, o)
     [] c = "PingAlways" -> PingAlways(mu, l, o)
     [] c = "ModernServedIffMetaComplete" -> ModernServedIffMetaComplete(mu, l, o, ms)
     [] c = "RemovedMethodsNotFound" -> RemovedMethodsNotFound(mu, l, o, ms)
@@ -241,6 +246,7 @@ Premise(c, mu, l, ms) ==
     [] c = "DuplicateInitRejected" -> mu.acc /\ l.m = MInit /\ LegacyMsg(l)
     [] c = "PrematureInitializedRejected" -> LegacySession(mu) /\ ~mu.acc /\ l.m = MInited /\ LegacyMsg(l)
     [] c = "RepeatedInitializedRejected" -> mu.acc /\ mu.inited /\ l.m = MInited /\ LegacyMsg(l)
+    [] c = "FirstInitializedTakesEffect" -> LegacySession(mu) /\ mu.acc /\ ~mu.inited /\ l.m = MInited /\ LegacyMsg(l)
     [] c = "PingAlways" -> LegacySession(mu) /\ l.m = MPing /\ LegacyMsg(l)
     [] c = "ModernServedIffMetaComplete" -> IsModernVer(l.mt) /\ ~ModernGood(l, ms)
     [] c = "RemovedMethodsNotFound" -> ModernGood(l, ms) /\ l.m \in Removed
